@@ -24,44 +24,176 @@ INVARIANT Emit
 BM_ID = 5
 
 
-def key_hash(k):
-    """script expression hash of the packed string key, computed independently of pytezos"""
-    kb = k.encode()
-    packed = b'\x05\x01' + len(kb).to_bytes(4, 'big') + kb
+def zarith(n):
+    """Micheline integer encoding, written independently of pytezos"""
+    neg, n = n < 0, abs(n)
+    first = (n & 0x3f) | (0x40 if neg else 0)
+    n >>= 6
+    out = []
+    if n:
+        first |= 0x80
+    out.append(first)
+    while n:
+        b = n & 0x7f
+        n >>= 7
+        out.append(b | (0x80 if n else 0))
+    return bytes(out)
+
+
+def enc(node):
+    """binary Micheline of a key in the form big_map key hashes are taken of: pairs stay nested binary pairs (the legacy optimized form)"""
+    t = node[0]
+    if t == 's':
+        return b'\x01' + len(node[1].encode()).to_bytes(4, 'big') + node[1].encode()
+    if t == 'n':
+        return b'\x00' + zarith(node[1])
+    if t == 'b':
+        return b'\x0a' + len(node[1]).to_bytes(4, 'big') + node[1]
+    if t == 'p':      # right comb of the leaves
+        leaves = node[1]
+        return enc(leaves[0]) if len(leaves) == 1 else b'\x07\x07' + enc(leaves[0]) + enc(('p', leaves[1:]))
+    if t == 'bool':
+        return b'\x03\x0a' if node[1] else b'\x03\x03'
+    if t == 'none':
+        return b'\x03\x06'
+    if t == 'some':
+        return b'\x05\x09' + enc(node[1])
+    if t == 'left':
+        return b'\x05\x05' + enc(node[1])
+    if t == 'right':
+        return b'\x05\x08' + enc(node[1])
+    raise ValueError(node)
+
+
+def lit(node):
+    t = node[0]
+    return {'s': lambda: '"%s"' % node[1], 'n': lambda: str(node[1]), 'b': lambda: '0x' + node[1].hex(), 'p': lambda: '(Pair %s)' % ' '.join(lit(x) for x in node[1]),
+            'bool': lambda: 'True' if node[1] else 'False', 'none': lambda: 'None', 'some': lambda: '(Some %s)' % lit(node[1]),
+            'left': lambda: '(Left %s)' % lit(node[1]), 'right': lambda: '(Right %s)' % lit(node[1])}[t]()
+
+
+def mich(node):
+    t = node[0]
+    if t == 's':
+        return {'string': node[1]}
+    if t == 'n':
+        return {'int': str(node[1])}
+    if t == 'b':
+        return {'bytes': node[1].hex()}
+    if t == 'p':
+        leaves = node[1]
+        return mich(leaves[0]) if len(leaves) == 1 else {'prim': 'Pair', 'args': [mich(leaves[0]), mich(('p', leaves[1:]))]}
+    if t == 'bool':
+        return {'prim': 'True' if node[1] else 'False'}
+    if t == 'none':
+        return {'prim': 'None'}
+    return {'prim': {'some': 'Some', 'left': 'Left', 'right': 'Right'}[t], 'args': [mich(node[1])]}
+
+
+def norm(e):
+    """a Micheline key as printed in a diff, in a form independent of how combs are written (flat, nested or as a sequence)"""
+    if isinstance(e, list):
+        e = {'prim': 'Pair', 'args': e}
+    if e.get('prim') == 'Pair':
+        args = list(e['args'])
+        out = [norm(a) for a in args[:-1]]
+        last = norm(args[-1])
+        return ('Pair',) + tuple(out) + (last[1:] if last[0] == 'Pair' else (last,))
+    if 'prim' in e:
+        return (e['prim'],) + tuple(norm(a) for a in e.get('args', []))
+    return tuple(sorted(e.items()))
+
+
+N = lambda n: ('n', n)
+# key families: Michelson key type, the concrete key standing for each abstract key of the model
+FAMILIES = {
+    'string': ('string', {'a': ('s', ''), 'b': ('s', 'a'), 'c': ('s', 'b')}),
+    'nat': ('nat', {'a': N(0), 'b': N(1), 'c': N(70000)}),
+    'bytes': ('bytes', {'a': ('b', b''), 'b': ('b', b'\x00'), 'c': ('b', b'\x00\x00')}),
+    'pair': ('pair nat string', {'a': ('p', [N(0), ('s', '')]), 'b': ('p', [N(0), ('s', 'x')]), 'c': ('p', [N(1), ('s', '')])}),
+    'comb4': ('pair nat nat nat nat', {'a': ('p', [N(0), N(0), N(0), N(0)]), 'b': ('p', [N(1), N(2), N(3), N(4)]), 'c': ('p', [N(1), N(2), N(3), N(5)])}),
+    'comb3n': ('pair (pair nat nat) bool (option nat)', {'a': ('p', [('p', [N(1), N(2)]), ('bool', False), ('none',)]), 'b': ('p', [('p', [N(1), N(2)]), ('bool', False), ('some', N(0))]),
+                                                         'c': ('p', [('p', [N(2), N(1)]), ('bool', True), ('none',)])}),
+    'or': ('or nat (or bool nat)', {'a': ('left', N(0)), 'b': ('right', ('left', ('bool', False))), 'c': ('right', ('right', N(0)))}),
+}
+
+
+def key_hash(k, fam='string'):
+    """script expression hash of the packed key, computed independently of pytezos"""
+    packed = b'\x05' + enc(FAMILIES[fam][1][k])
     return b58.check_encode(b58.P['expr'], hashlib.blake2b(packed, digest_size=32).digest())
 
 
 # model value 1 is the empty string (a falsy Python value that is nevertheless a binding), 2 is "w"
 VAL = {1: '', 2: 'w'}
 UNVAL = {'': 1, 'w': 2}
-OPS = {
-    'get': lambda k, v: 'DUP ; PUSH string "%s" ; GET ; DIG 2 ; SWAP ; CONS ; SWAP' % k,
-    'mem': lambda k, v: 'DUP ; PUSH string "%s" ; MEM ; DIG 3 ; SWAP ; CONS ; DUG 2' % k,
-    'upd': lambda k, v: 'PUSH (option string) %s ; PUSH string "%s" ; UPDATE' % ('(Some "%s")' % VAL[v] if v else 'None', k),
-    'gau': lambda k, v: 'PUSH (option string) %s ; PUSH string "%s" ; GET_AND_UPDATE ; DIG 2 ; SWAP ; CONS ; SWAP' % ('(Some "%s")' % VAL[v] if v else 'None', k),
-}
 
 
-def script(hist):
-    body = ' ; '.join(OPS[op[0]](op[1], op[2] if len(op) > 2 else None) for op in hist)
-    return ('parameter unit ; storage (pair (big_map string string) (pair (list (option string)) (list bool))) ; '
-            'code { CDR ; UNPAIR 3 ; %s PAIR 3 ; NIL operation ; PAIR }' % (body + ' ; ' if body else ''))
+def ops_text(fam, op):
+    kt, keys = FAMILIES[fam]
+    push = 'PUSH (%s) %s' % (kt, lit(keys[op[1]]))
+    v = op[2] if len(op) > 2 else None
+    newv = 'PUSH (option string) %s' % ('(Some "%s")' % VAL[v] if v else 'None')
+    return {'get': 'DUP ; %s ; GET ; DIG 2 ; SWAP ; CONS ; SWAP' % push,
+            'mem': 'DUP ; %s ; MEM ; DIG 3 ; SWAP ; CONS ; DUG 2' % push,
+            'upd': '%s ; %s ; UPDATE' % (newv, push),
+            'gau': '%s ; %s ; GET_AND_UPDATE ; DIG 2 ; SWAP ; CONS ; SWAP' % (newv, push)}[op[0]]
 
 
-def run_impl(mode, chain, literal, hist):
+def script(hist, fam='string', mode='existing'):
+    kt = FAMILIES[fam][0]
+    body = ' ; '.join(ops_text(fam, op) for op in hist)
+    store = 'pair (big_map (%s) string) (pair (list (option string)) (list bool))' % kt
+    if mode == 'copy':    # the big_map of the parameter replaces the (empty, fresh) one of the storage
+        return ('parameter (big_map (%s) string) ; storage (%s) ; code { UNPAIR ; SWAP ; CDR ; SWAP ; PAIR ; UNPAIR 3 ; %s PAIR 3 ; NIL operation ; PAIR }'
+                % (kt, store, body + ' ; ' if body else ''))
+    return 'parameter unit ; storage (%s) ; code { CDR ; UNPAIR 3 ; %s PAIR 3 ; NIL operation ; PAIR }' % (store, body + ' ; ' if body else '')
+
+
+_PARSED = {}
+
+
+def _parse(text):
+    """the pytezos text parser, memoised per snippet (the whole script is the concatenation of the snippets' Micheline)"""
+    if text not in _PARSED:
+        from pytezos.michelson.parse import michelson_to_micheline
+        _PARSED[text] = michelson_to_micheline(text)
+    return _PARSED[text]
+
+
+def script_micheline(hist, fam, mode):
+    import copy
+    skeleton = copy.deepcopy(_parse(script((), fam, mode)))
+    code = next(s for s in skeleton if s['prim'] == 'code')['args'][0]
+    body = [i for op in hist for i in copy.deepcopy(_parse('{ %s }' % ops_text(fam, op)))]
+    at = next(i for i, ins in enumerate(code) if ins == {'prim': 'PAIR', 'args': [{'int': '3'}]})
+    code[at:at] = body
+    return skeleton
+
+
+def run_impl(mode, chain, literal, hist, fam='string'):
     from pytezos.michelson.parse import michelson_to_micheline
     from pytezos.michelson.repl import Interpreter
     from pytezos.rpc.shell import ShellQuery
     from ..bigmapnode import BigMapNode
-    node = BigMapNode({BM_ID: {key_hash(k): {'string': VAL[v]} for k, v in chain.items() if v}})
+    keys = FAMILIES[fam][1]
+    node = BigMapNode({BM_ID: {key_hash(k, fam): {'string': VAL[v]} for k, v in chain.items() if v}})
+    parameter = {'prim': 'Unit'}
     if mode == 'existing':
         bm = {'int': str(BM_ID)}
+    elif mode == 'copy':
+        bm, parameter = [], {'int': str(BM_ID)}
     else:
-        bm = [{'prim': 'Elt', 'args': [{'string': k}, {'string': VAL[v]}]} for k, v in sorted(literal.items()) if v > 0]
+        elts = sorted(((k, v) for k, v in literal.items() if v > 0), key=lambda kv: enc_sort_key(fam, kv[0]))
+        bm = [{'prim': 'Elt', 'args': [mich(keys[k]), {'string': VAL[v]}]} for k, v in elts]
     storage = {'prim': 'Pair', 'args': [bm, {'prim': 'Pair', 'args': [[], []]}]}
-    ops, st, lazy_diff, stdout, err = Interpreter.run_code(parameter={'prim': 'Unit'}, storage=storage, script=michelson_to_micheline(script(hist)),
-                                                          shell=ShellQuery(node=node))
+    ops, st, lazy_diff, stdout, err = Interpreter.run_code(parameter=parameter, storage=storage, script=script_micheline(hist, fam, mode), shell=ShellQuery(node=node))
     return st, lazy_diff, err, node
+
+
+def enc_sort_key(fam, k):
+    """the concrete keys of every family are chosen so that a < b < c in Michelson order; literals are written in that order"""
+    return k
 
 
 def flat_args(st):
@@ -73,12 +205,15 @@ def flat_args(st):
     return out + list(a)
 
 
-def compare(ctx, mode, chain, hist, obs, flat, literal):
-    case = {'mode': mode, 'chain': chain, 'literal': literal, 'hist': to_json(hist), 'obs': to_json(obs), 'flat': flat}
-    st, lazy_diff, err, node = run_impl(mode, chain, literal, hist)
-    desc = 'mode=%s chain=%s literal=%s ops=%s' % (mode, chain, literal, json.dumps(to_json(hist)))
+def compare(ctx, mode, chain, hist, obs, flat, literal, fam='string', expect=None):
+    expect = expect or {'existing': ('update', False, True), 'fresh': ('alloc', False, False), 'copy': ('copy', True, False)}[mode]
+    want_action, needs_source, keeps_id = expect
+    case = {'mode': mode, 'chain': chain, 'literal': literal, 'hist': to_json(hist), 'obs': to_json(obs), 'flat': flat, 'fam': fam, 'expect': list(expect)}
+    st, lazy_diff, err, node = run_impl(mode, chain, literal, hist, fam)
+    tag = '' if fam == 'string' else ':key-' + fam
+    desc = 'mode=%s keys=%s chain=%s literal=%s ops=%s' % (mode, fam, chain, literal, json.dumps(to_json(hist)))
     if err is not None:
-        ctx.mismatch('C15:run:raises', '%s: run_code failed: %s' % (desc, str(err)[:300]), case)
+        ctx.mismatch('C15:run:raises' + tag, '%s: run_code failed: %s' % (desc, str(err)[:300]), case)
         return False
     bm, gets, mems = flat_args(st)
     got_gets = [None if g['prim'] == 'None' else UNVAL[g['args'][0]['string']] for g in reversed(gets)]
@@ -87,47 +222,54 @@ def compare(ctx, mode, chain, hist, obs, flat, literal):
     want_mems = [o[1] for o in obs if o[0] == 'mem']
     ok = True
     if got_gets != want_gets or got_mems != want_mems:
-        last = hist[-1][0]
-        ctx.mismatch('C15:observation:%s' % ('get' if got_gets != want_gets else 'mem'), '%s: GET results %s (model %s), MEM results %s (model %s)' % (desc, got_gets, want_gets, got_mems, want_mems), case)
+        ctx.mismatch('C15:observation:%s%s' % ('get' if got_gets != want_gets else 'mem', tag), '%s: GET results %s (model %s), MEM results %s (model %s)' % (desc, got_gets, want_gets, got_mems, want_mems), case)
         ok = False
     # the diff, applied to the chain contents, must give the final dictionary
     diffs = [d for d in lazy_diff if d['kind'] == 'big_map']
+    if mode == 'copy':      # the dropped empty big_map of the storage may or may not be mentioned: the diff of the stored one is what counts
+        diffs = [d for d in diffs if bm == {'int': d['id']}]
     if len(diffs) != 1:
-        ctx.mismatch('C15:diff:count', '%s: %d big_map diffs emitted' % (desc, len(diffs)), case)
+        ctx.mismatch('C15:diff:count' + tag, '%s: %d big_map diffs emitted for the stored big_map %s: %s' % (desc, len(diffs), bm, json.dumps(lazy_diff)[:300]), case)
         return False
     d = diffs[0]
     action = d['diff']['action']
-    result = dict(chain) if mode == 'existing' else {k: 0 for k in chain}
-    want_action = 'update' if mode == 'existing' else 'alloc'
-    if action != want_action or (mode == 'existing' and d['id'] != str(BM_ID)) or bm != {'int': d['id']}:
-        ctx.mismatch('C15:diff:action-or-id', '%s: diff action %s id %s, storage %s (expected %s)' % (desc, action, d['id'], bm, want_action), case)
+    result = {k: 0 for k in chain} if mode == 'fresh' else dict(chain)
+    if action != want_action or (d['id'] == str(BM_ID)) != keeps_id or bm != {'int': d['id']}:
+        ctx.mismatch('C15:diff:action-or-id' + tag, '%s: diff action %s id %s, storage %s (model: %s, %s)' % (desc, action, d['id'], bm, want_action, 'same id' if keeps_id else 'new id'), case)
         ok = False
+    if needs_source and str(d['diff'].get('source')) != str(BM_ID):
+        ctx.mismatch('C15:diff:copy-source' + tag, '%s: copy diff names source %r, the copied big_map is %d (without it the diff cannot be applied)' % (desc, d['diff'].get('source'), BM_ID), case)
+        ok = False
+    keys = FAMILIES[fam][1]
+    by_norm = {norm(mich(node)): k for k, node in keys.items()}
     seen = set()
     for u in d['diff'].get('updates', []):
-        k = u['key'].get('string')
-        if u.get('key_hash') != key_hash(k):
-            ctx.mismatch('C15:diff:key_hash', '%s: key %r has key_hash %s, expected %s' % (desc, k, u.get('key_hash'), key_hash(k)), case)
+        k = by_norm.get(norm(u['key']))
+        if k is None:
+            ctx.mismatch('C15:diff:unknown-key' + tag, '%s: diff entry for key %s which no operation touched' % (desc, json.dumps(u['key'])), case)
+            ok = False
+            continue
+        if u.get('key_hash') != key_hash(k, fam):
+            ctx.mismatch('C15:diff:key_hash' + tag, '%s: key %s has key_hash %s, expected %s' % (desc, lit(keys[k]), u.get('key_hash'), key_hash(k, fam)), case)
             ok = False
         if k in seen:
-            ctx.mismatch('C15:diff:duplicate-entry', '%s: key %r occurs twice in the diff %s' % (desc, k, json.dumps(d['diff']['updates'])), case)
+            ctx.mismatch('C15:diff:duplicate-entry' + tag, '%s: key %s occurs twice in the diff %s' % (desc, lit(keys[k]), json.dumps(d['diff']['updates'])), case)
             ok = False
         seen.add(k)
         result[k] = UNVAL[u['value']['string']] if 'value' in u else 0
     if {k: v for k, v in result.items()} != flat:
-        ctx.mismatch('C15:diff:apply', '%s: diff %s applied to chain gives %s, final dictionary is %s' % (desc, json.dumps(d['diff'].get('updates')), result, flat), case)
+        ctx.mismatch('C15:diff:apply' + tag, '%s: diff %s applied to chain gives %s, final dictionary is %s' % (desc, json.dumps(d['diff'].get('updates')), result, flat), case)
         ok = False
     return ok
 
 
-def run_config(ctx, keys, depth, ninit):
-    inits = [('existing', (1, 0, 2), (0, 0, 0)), ('existing', (0, 0, 0), (0, 0, 0)), ('existing', (1, 1, 1), (0, 0, 0)), ('existing', (0, 2, 0), (0, 0, 0)),
-             ('fresh', (0, 0, 0), (0, 0, 0)), ('fresh', (0, 0, 0), (1, 0, 0)), ('fresh', (0, 0, 0), (1, 0, 2))]
-    if not ctx.quick:
-        inits = inits[:2] + inits[4:6] + [('existing', (2, 1, 0), (0, 0, 0))]
-    else:
-        inits = [inits[0], inits[3], inits[6]]
-    if ninit:
-        inits = [inits[0], inits[1]][:ninit]
+ALL_INITS = [('existing', (1, 0, 2), (0, 0, 0)), ('existing', (0, 0, 0), (0, 0, 0)), ('existing', (1, 1, 1), (0, 0, 0)), ('existing', (0, 2, 0), (0, 0, 0)),
+             ('fresh', (0, 0, 0), (0, 0, 0)), ('fresh', (0, 0, 0), (1, 0, 0)), ('fresh', (0, 0, 0), (1, 0, 2)),
+             ('copy', (0, 2, 1), (0, 0, 0)), ('copy', (1, 0, 2), (0, 0, 0)), ('existing', (2, 1, 0), (0, 0, 0))]
+
+
+def run_config(ctx, keys, depth, inits, fams):
+    """fams: {family: maximal history length replayed with that key family}"""
     init_tla = '{' + ', '.join('<<"%s", F(%d, %d, %d), F(%d, %d, %d)>>' % ((m,) + c + l) for m, c, l in inits) + '}'
     gen = {'BigMapLayerMC': MC % init_tla}
     r = ctx.tlc('BigMapLayerMC', CFG % (', '.join('"%s"' % k for k in keys), depth), gen=gen, timeout=1500, coverage=True, name='BigMapLayerMC_%d_%d' % (len(keys), depth))
@@ -135,30 +277,43 @@ def run_config(ctx, keys, depth, ninit):
     ctx.require_coverage(r, ['Get', 'Mem', 'Upd', 'GetUpd'])
     outs = sorted((v for v in r.printed if v[0] == 'OUT'), key=repr)
     for v in outs:
-        _, mode, chain, lit, hist, obs, flat = v
-        ok = compare(ctx, mode, dict(chain), hist, obs, dict(flat), dict(lit))
-        ctx.replayed += 1
-        ctx.count((mode, tuple(sorted(chain.items())), tuple(sorted(lit.items())), hist), nontrivial=any(o[0] in ('upd', 'gau') for o in hist))
-        if ok and len(hist) == depth and ctx.replayed % 211 == 1:
-            ctx.sample({'mode': mode, 'chain': chain, 'literal': lit, 'ops': hist, 'observations': obs, 'final': flat}, limit=5)
+        _, mode, chain, lit_, hist, obs, flat, expect = v
+        for fam, maxlen in fams.items():
+            if len(hist) > maxlen:
+                continue
+            ok = compare(ctx, mode, dict(chain), hist, obs, dict(flat), dict(lit_), fam, tuple(expect))
+            ctx.replayed += 1
+            ctx.count((fam, mode, tuple(sorted(chain.items())), tuple(sorted(lit_.items())), hist), nontrivial=any(o[0] in ('upd', 'gau') for o in hist))
+            ctx.extra.setdefault('replayed_by_key_family', {}).setdefault(fam, 0)
+            ctx.extra['replayed_by_key_family'][fam] += 1
+            if ok and len(hist) == maxlen and ctx.replayed % 211 == 1:
+                ctx.sample({'keys': fam, 'mode': mode, 'chain': chain, 'literal': lit_, 'ops': hist, 'observations': obs, 'final': flat, 'script': script(hist, fam, mode)}, limit=6)
+
 
 def run(ctx):
-    ctx.rule = ('keys {a,b} (thorough {a,b,c}), values 1..2; modes: existing on-chain big_map (4 content splits) and fresh literal (3 literals); every history of GET / MEM / UPDATE '
-                '(set or remove) / GET_AND_UPDATE up to 3 (4) operations. Leg A: the layered view (local bindings / removals over chain contents) equals a flat dictionary, '
-                'every observation equals the dictionary\'s, and the diff the layer stands for applied to the chain gives the dictionary. Leg B: each history is compiled into a '
-                'contract run by Interpreter.run_code against a simulated node serving the on-chain entries (real ShellQuery path); GET/MEM results, the emitted lazy diff '
-                'applied to the chain contents, its action/id and each key_hash (recomputed with hashlib) are compared; non-trivial = history has an update')
-    ctx.assumptions = ['string keys, string values (the empty string included)', 'the exact shape of the diff is not prescribed: only its effect, action, id and key hashes', 'key_hash recomputed independently (own PACK of a string + blake2b + base58)']
-    configs = [(['a', 'b'], 3, None)] if ctx.quick else [(['a', 'b', 'c'], 3, None), (['a', 'b'], 4, 2)]
-    for keys, depth, ninit in configs:
-        run_config(ctx, keys, depth, ninit)
+    ctx.rule = ('abstract keys {a,b} (thorough {a,b,c}), values 1..2 (the empty string and "w"); modes: existing on-chain big_map, fresh literal, and a big_map received by id in the '
+                'parameter and stored (copy); every history of GET / MEM / UPDATE (set or remove) / GET_AND_UPDATE up to 3 (4) operations. Leg A: the layered view (local bindings / '
+                'removals over chain contents) equals a flat dictionary, every observation equals the dictionary\'s, and the diff the layer stands for applied to the chain gives the '
+                'dictionary. Leg B: each history is compiled into a contract run by Interpreter.run_code against a simulated node serving the on-chain entries (real ShellQuery path), '
+                'once per key family (string, nat, bytes, pair, 4-leaf comb, nested comb with bool/option, or) with the depth given in replayed_by_key_family; GET/MEM results, the '
+                'emitted lazy diff applied to the chain contents, its action / id / copy source and each key_hash (recomputed with hashlib from an own legacy-form PACK) are compared; '
+                'non-trivial = history has an update')
+    ctx.assumptions = ['string values (the empty string included); keys of 7 comparable type families', 'the exact shape of the diff is not prescribed: only its effect, action, id, copy source and key hashes',
+                       'key_hash recomputed independently (own binary Micheline of the key with nested pairs + blake2b + base58)']
+    I = ALL_INITS
+    if ctx.quick:
+        run_config(ctx, ['a', 'b'], 3, [I[0], I[7], I[6]], {'string': 3})
+        run_config(ctx, ['a', 'b'], 2, [I[0], I[7], I[5]], {f: 2 for f in FAMILIES if f != 'string'})
+    else:
+        run_config(ctx, ['a', 'b', 'c'], 3, [I[0], I[1], I[4], I[5], I[9], I[7]], {'string': 3, 'comb4': 3, 'nat': 2, 'bytes': 2, 'pair': 2, 'comb3n': 2, 'or': 2})
+        run_config(ctx, ['a', 'b'], 4, [I[0], I[1], I[8]], {'string': 4})
     ctx.exhaustive = True
 
 
 def replay(ctx, rep):
     c = rep['case']
     tup = lambda x: tuple(tup(y) for y in x) if isinstance(x, list) else x
-    ok = compare(ctx, c['mode'], c['chain'], tup(c['hist']), tup(c['obs']), c['flat'], c.get('literal') or {})
+    ok = compare(ctx, c['mode'], c['chain'], tup(c['hist']), tup(c['obs']), c['flat'], c.get('literal') or {}, c.get('fam', 'string'), tuple(c['expect']) if c.get('expect') else None)
     for m in ctx.mismatches:
         print('REPRODUCED', m.signature, m.detail[:800])
     return 0 if ok else 1
@@ -171,6 +326,6 @@ META = {
              'final diff equal the dictionary. Every history is then compiled into a contract and executed by Interpreter.run_code against a simulated node serving the on-chain '
              'entries through the real RPC query layer; observations, the emitted lazy diff applied to the chain contents, its action/id and every key_hash are compared.'),
     'design_ref': 'DESIGN.md section 5 C15, A.3',
-    'note': 'Trusted: BigMapNode (RpcNode subclass serving context/big_maps/<id>/<hash>), independent key hash computation, script generation. Bounds: 2 (3) string keys, values 1..2, 3 (4) operations, 7 (5) initial splits.',
+    'note': 'Trusted: BigMapNode (RpcNode subclass serving context/big_maps/<id>/<hash>), independent key hash computation, script generation. Bounds: 2 (3) abstract keys concretised in 7 key type families, values 1..2, 3 (4) operations, existing / fresh / copied big_maps.',
     'technique': 'TLA+ layered-dictionary model, TLC exhaustive over histories; replay as contracts through Interpreter.run_code against a simulated node',
 }
